@@ -39,8 +39,8 @@ type Prog struct {
 	Clients [][]Op   `json:"clients"`
 }
 
-var clientOps = []string{"add", "add", "add", "addall", "addall", "wait", "result", "close", "status", "purge", "qpending", "npend", "nproc", "nidle", "nconc", "wstatus", "metrics", "errs", "gconsume", "gpending", "gwait", "drain", "ctx", "wuf", "yield"}
-var ctrlOps = []string{"pause", "resume", "pausewait", "restart", "tune", "stop", "restart", "bind", "tune"}
+var clientOps = []string{"add", "add", "add", "addall", "addall", "wait", "result", "close", "status", "purge", "qpending", "npend", "nproc", "nidle", "nconc", "wstatus", "metrics", "errs", "gconsume", "gpending", "gwait", "drain", "ctx", "wuf", "yield", "mreset"}
+var ctrlOps = []string{"pause", "resume", "pausewait", "restart", "tune", "stop", "restart", "bind", "tune", "waitstop"}
 
 func genProg() *rapid.Generator[*Prog] {
 	return rapid.Custom(func(t *rapid.T) *Prog {
@@ -65,7 +65,7 @@ func genProg() *rapid.Generator[*Prog] {
 					name = rapid.SampledFrom(clientOps).Draw(t, "op")
 					// accessors of state that lifecycle calls replace: make them frequent enough to overlap
 					if rapid.IntRange(0, 5).Draw(t, "accessor") == 0 {
-						name = rapid.SampledFrom([]string{"ctx", "errs", "wstatus", "metrics", "nidle"}).Draw(t, "accessorop")
+						name = rapid.SampledFrom([]string{"ctx", "errs", "wstatus", "metrics", "nidle", "mreset"}).Draw(t, "accessorop")
 					}
 				}
 				ops = append(ops, Op{Op: name, Q: rapid.IntRange(0, nq-1).Draw(t, "q"), H: rapid.IntRange(0, 7).Draw(t, "h"), V: rapid.SampledFrom([]int{1, 2, 3, 4, 0}).Draw(t, "v"), N: rapid.IntRange(0, 5).Draw(t, "n")})
@@ -340,6 +340,10 @@ func (e *episode) do(c int, op Op, cancel context.CancelFunc) {
 	case "metrics":
 		m := e.w.Metrics()
 		_ = m.Submitted() + m.Completed() + m.Failed() + m.Successful()
+	case "mreset":
+		e.w.Metrics().Reset()
+	case "waitstop":
+		e.guard(func() { e.w.WaitAndStop() })
 	case "errs":
 		select {
 		case <-e.w.Errs():
